@@ -123,6 +123,20 @@ class HGen:
         hb = self.g.route("Heartbeat", ("ret", {"current_time": "t"}))
         return "1.6", [hb], ops, 30
 
+    def skip_overlap(self):
+        """two overlapping calls with different skip flags: each reply is validated according to the flag of
+        the call it answers, not of the call queued behind it"""
+        out = []
+        for version, bad_status in (("1.6", {"status": "NotAStatus"}), ("2.0.1", {"status": "NotAStatus", "extra": 1})):
+            for a_skip in (False, True):
+                ops = [("start", 0, "A", "Reset", {"type": "Hard" if version == "1.6" else "Immediate"}, a_skip, False, True),
+                       ("start", 1, "B", "Reset", {"type": "Hard" if version == "1.6" else "Immediate"}, not a_skip, False, True),
+                       ("inbound", json.dumps([3, "A", bad_status])),
+                       ("inbound", json.dumps([3, "B", bad_status])),
+                       ("tick", 1)]
+                out.append((version, [], ops, 30))
+        return out
+
     def all(self):
         n = 60 if self.tier == "quick" else 600
         hs = []
@@ -130,7 +144,7 @@ class HGen:
             timeout = self.rng.choice([30, 2, 10])
             hs.append(self.history(self.rng.choice([6, 12, 25, 40]) if self.tier == "quick" else self.rng.choice([10, 40, 120]), timeout))
         hs.append(self.stale_flood(300 if self.tier == "quick" else 3000))
-        return hs
+        return self.skip_overlap() + hs
 
 
 def run_histories(rep, hs, tag, prop_id, oracle, view, shard_size=8, async_validation=False):
